@@ -63,7 +63,7 @@ func (c *Check) Violate(rule, key, pos, detail string) *Obligation {
 	return c.add(rule, key, pos, Violation, detail)
 }
 func (c *Check) Undecided(rule, key, pos, detail string) { c.add(rule, key, pos, Undecided, detail) }
-func (c *Check) Unresolved(rule, key, detail string)    { c.add(rule, key, "?", Unresolved, detail) }
+func (c *Check) Unresolved(rule, key, detail string)     { c.add(rule, key, "?", Unresolved, detail) }
 
 // Decide records holds/violation from a boolean.
 func (c *Check) Decide(ok bool, rule, key, pos, okDetail, badDetail string) {
